@@ -2,6 +2,7 @@
 import p_codec
 import p_session
 import p_stream
+import p_conc
 
 CHECKS = {
     "C01": p_codec.check_C01,
@@ -17,7 +18,8 @@ CHECKS = {
     "C10": p_session.check_C10,
     "C15": p_session.check_C15,
     "C19": p_session.check_C19,
-    "C05": p_session.check_C05,
+    "C05": p_conc.check_C05,
+    "C20": p_conc.check_C20,
     "C04": p_stream.check_C04,
 }
 
